@@ -205,7 +205,7 @@ func (x *Exec) load(st *State, p *Pointer, t types.Type) *Value {
 	}
 	if x.isStruct(t) {
 		fs, key := x.fieldsOf(t)
-		v := &Value{T: t}
+		v := &Value{T: t, Fs: []*Value{}}
 		for _, f := range fs {
 			fp := &Pointer{Base: p.Base, OwnerKey: p.OwnerKey, Path: p.Path}
 			if len(p.Path) == 0 {
@@ -352,7 +352,7 @@ func (x *Exec) zero(t types.Type) *Value {
 	t = types.Unalias(t)
 	if x.isStruct(t) {
 		fs, _ := x.fieldsOf(t)
-		v := &Value{T: t}
+		v := &Value{T: t, Fs: []*Value{}}
 		for _, f := range fs {
 			if f.S != nil {
 				v.Fs = append(v.Fs, &Value{Tm: zeroOfSort(f.S)})
@@ -391,7 +391,7 @@ func (x *Exec) symbolic(st *State, t types.Type, hint string) *Value {
 	t = types.Unalias(t)
 	if x.isStruct(t) {
 		fs, _ := x.fieldsOf(t)
-		v := &Value{T: t}
+		v := &Value{T: t, Fs: []*Value{}}
 		for _, f := range fs {
 			if f.S != nil {
 				v.Fs = append(v.Fs, &Value{Tm: x.vc.fresh(hint+"."+f.Name, f.S)})
@@ -425,6 +425,15 @@ func (x *Exec) coerce(v *Value, t types.Type) *Value {
 	if v == nil {
 		panic(engErr("nil value"))
 	}
+	if t != nil && v.Fs != nil {
+		if _, isIface := types.Unalias(t).Underlying().(*types.Interface); isIface && v.T != nil {
+			// boxing a struct value into an interface: an (under-constrained) non-nil reference
+			// whose dynamic type is known
+			ref := x.fresh("box", IntS)
+			x.vc.assume(And(Gt(ref, IntLit(0)), Eq(App("dtype", IntS, ref), x.eng.typeID(v.T))))
+			return &Value{T: t, Tm: ref}
+		}
+	}
 	if t == nil || v.Fs != nil {
 		return v
 	}
@@ -437,6 +446,9 @@ func (x *Exec) coerce(v *Value, t types.Type) *Value {
 	}
 	if v.P != nil {
 		// pointer flowing into interface / unsafe: keep the plain reference
+		if _, isIface := t.Underlying().(*types.Interface); isIface && v.T != nil && isPointer(v.T) {
+			x.vc.assume(Implies(Not(Eq(v.term(), IntLit(0))), Eq(App("dtype", IntS, v.term()), x.eng.typeID(v.T))))
+		}
 		return &Value{T: t, Tm: v.term()}
 	}
 	want, ok := x.eng.sortOf(t, x.bv)
